@@ -61,6 +61,8 @@ type treeResult struct {
 	LoadErr string `json:"load_err,omitempty"`
 	Root    string `json:"-"` // scratch root the tree was written under
 	Result
+	// Again: the same page rendered once more on the same loaded templates
+	Again *Result `json:"again,omitempty"`
 }
 
 // normalised returns s with the scratch root replaced (each materialisation
@@ -99,6 +101,16 @@ func loadAndRender(c *harness.Check, cs treeCase) treeResult {
 				tr.Err = "(empty error)"
 			}
 		}
+		// every property about what a page renders to holds for each render of
+		// the loaded templates, not only the first
+		out2, ferr2 := tpl.String(cs.Page, cs.Data.GoMap())
+		tr.Again = &Result{Out: out2}
+		if ferr2 != nil {
+			tr.Again.Err = ferr2.String()
+			if tr.Again.Err == "" {
+				tr.Again.Err = "(empty error)"
+			}
+		}
 	})
 	return tr
 }
@@ -131,6 +143,17 @@ func runTreeCase(c *harness.Check, cs treeCase) (treeResult, string) {
 	}
 	if cs.MustContain != "" && !tr.IsErr() && !strings.Contains(tr.Out, cs.MustContain) {
 		return tr, fmt.Sprintf("output lacks %q", cs.MustContain)
+	}
+	if tr.Again != nil {
+		if f := cs.Want.matches(*tr.Again); f != "" {
+			return tr, "second render of the same loaded templates: " + f
+		}
+		if cs.NotContains != "" && strings.Contains(tr.Again.Out, cs.NotContains) {
+			return tr, fmt.Sprintf("second render: output contains %q", cs.NotContains)
+		}
+		if cs.MustContain != "" && !tr.Again.IsErr() && !strings.Contains(tr.Again.Out, cs.MustContain) {
+			return tr, fmt.Sprintf("second render: output lacks %q", cs.MustContain)
+		}
 	}
 	return tr, ""
 }
